@@ -229,7 +229,9 @@ def enum_c05():
     fam_nlri = {E.EVPN: E.evpn(2, E.evpn_t2(ip=[192, 0, 2, 9])), E.RTC: E.rtc(96, fill(12)), E.IPV4_SRP: E.srp(96, 1, 2, [1, 2, 3, 4]),
                 E.IPV4_FS: E.flowspec([E.fs_prefix4(1, 24, [10, 0, 0]), E.fs_ops(3, [(1, 6)])]),
                 E.IPV6_FS: E.flowspec([E.fs_prefix6(1, 32, 0, [0x20, 1, 0xd, 0xb8])]),
-                E.IPV4_FSVPN: E.flowspec([E.fs_ops(5, [(1, 80)])], rd=E.RD0)}
+                E.IPV4_FSVPN: E.flowspec([E.fs_ops(5, [(1, 80)])], rd=E.RD0),
+                E.IPV4_MUP: E.mup(1, E.mup_isd(24, [10, 0, 0])),
+                E.LS: E.ls_nlri(3, E.ls_head() + E.ls_node_desc([E.ls_tlv(512, [0, 0, 0xfd, 0xe9])]) + E.ls_tlv(265, [24, 10, 0, 1]))}
     for fam, n in fam_nlri.items():
         cf = {'ext': False, 'two': False, 'nh': False, 'fams': [(E.IPV4, False), (fam, False)]}
         nh = [] if (fam & 0xff) in (133, 134) else [10, 0, 0, 1]
